@@ -438,6 +438,35 @@ impl<'a> Model<'a> {
                 }
             }
             Conduit::GenNext => self.invoke(func, a, line, c.conduit),
+            Conduit::FoldTraced | Conduit::OpAddTraced | Conduit::GenLocalFor => {
+                // all frames on the path are Koto frames on known lines: innermost first
+                let (inner, outer): (u32, Option<u32>) = match c.conduit {
+                    Conduit::FoldTraced => (self.printed.foldt_lines.1, Some(self.printed.foldt_lines.0)),
+                    Conduit::OpAddTraced => (self.printed.opt_inner_line[func], None),
+                    _ => (self.printed.gen_yield_line[func], Some(self.printed.gensuml_for_line[func])),
+                };
+                let args: &[i64] = if c.conduit == Conduit::OpAddTraced { &[0] } else { &[0, 1] };
+                let mut sum = 0i64;
+                for d in args {
+                    self.conduit_stack.push(c.conduit);
+                    let r = self.invoke(func, a.wrapping_add(*d), inner, Conduit::Plain);
+                    self.conduit_stack.pop();
+                    match r {
+                        Ok(v) => sum = sum.wrapping_add(v),
+                        Err(Abrupt::Throw(mut t)) => {
+                            if !t.crossed_opaque {
+                                if let Some(o) = outer {
+                                    t.call_lines.push(o);
+                                }
+                                t.call_lines.push(line);
+                            }
+                            return Err(Abrupt::Throw(t));
+                        }
+                        Err(o) => return Err(o),
+                    }
+                }
+                Ok(sum)
+            }
             Conduit::OpIterator => {
                 let r1 = self.invoke(func, 0, line, c.conduit)?;
                 let r2 = self.invoke(func, 1, line, c.conduit)?;
